@@ -296,9 +296,10 @@ class TraitSet(set):
             The other iterables.
         """
 
-        old_set = self.copy()
-        super().difference_update(*args)
-        removed = old_set.difference(self)
+        # Consume the arguments first, so that an invalid (e.g. unhashable)
+        # item is reported before anything is removed.
+        removed = self.intersection(set().union(*args))
+        super().difference_update(removed)
 
         if len(removed) > 0:
             self.notify(removed, set())
